@@ -1,21 +1,79 @@
 from vlib.props import prop
 
-# provisional: calibrated below after the first runs
+# about 55% of what seeds 1..5 observe with the quick case counts below (see the evidence file for the actual numbers)
 _min_obs_quick = {
-    "updates_checked": 1000,
+    # (1) update formula
+    "updates_checked": 80000, "voxels_compared": 12000000, "voxels_with_zero_subset_sensitivity": 3000000,
+    "prior_none_em": 6000, "prior_quadratic_additive": 900, "prior_quadratic_multiplicative": 900,
+    "prior_rdp_additive": 900, "prior_rdp_multiplicative": 900,
+    "subsets_1": 2500, "subsets_2_to_4": 3500, "subsets_5_or_more": 3000,
+    "cases_with_additive_term": 4000, "cases_with_normalisation": 4500,
+    "cases_with_total_sensitivity_over_num_subsets": 1800, "cases_randomised_subset_order": 1000,
+    # (2) positivity, incl. filters
+    "nonnegativity_checks": 85000, "cases_with_filter": 700, "updates_not_compared_filter_applied": 4000,
+    # (3),(4) one subset
+    "monotonic_checks": 9000, "objective_values_compared": 11000, "count_preservation_checks": 6000,
+    # (5) restart
+    "restart_points": 38000, "restarts_checked": 25000, "restart_iterates_compared": 120000,
+    "restarts_positivity_on_start_image_unchanged": 1700, "restarts_positivity_on_start_image_lifted": 13000,
+    "saved_iterates_read_back": 18000, "file_roundtrip_restarts": 4000,
 }
 
 prop("C07",
      harness="c07_osmaposl",
      runs={
-         "quick": [dict(flavour="asan", cases=1500), dict(flavour="rel", cases=10000)],
-         "thorough": [dict(flavour="asan", cases=6000), dict(flavour="rel", cases=60000)],
+         "quick": [dict(flavour="asan", cases=2400), dict(flavour="rel", cases=16000)],
+         "thorough": [dict(flavour="asan", cases=5000), dict(flavour="rel", cases=35000)],
      },
-     min_nontrivial={"quick": 5000, "thorough": 30000},
-     min_obs={"quick": _min_obs_quick, "thorough": {k: 4 * v for k, v in _min_obs_quick.items()}},
-     rule="provisional",
-     technique="provisional",
-     level_text="provisional",
-     level_note="provisional",
-     assumptions=[],
+     min_nontrivial={"quick": 12000, "thorough": 25000},
+     min_obs={"quick": _min_obs_quick,
+              "thorough": {k: 3 * v for k, v in _min_obs_quick.items()}},
+     rule=("case = one generated configuration and one real OSMAPOSLReconstruction run through the public C++ API (set_up + "
+           "reconstruct(target)): cylindrical scanner with 8..24(28) detectors, 1..3 rings, span 1, all or no oblique segments, 3..11 "
+           "tangential positions, image 5x5..9x9 x (2 rings - 1) planes, ray-tracing matrix with a random subset of its symmetry "
+           "switches, cylindrical or square FOV; Poisson counts drawn from the documented model (G truth + a)/n at 0.5..50 mean counts "
+           "per bin, additive term on/off, normalisation factors 0.5..2 on/off; random positive start image; number of subsets drawn "
+           "from ALL numbers the balance check accepts (1..number of views), start subset 0..N-1, 1..3 full iterations + a partial "
+           "one (<= 20/36 sub-iterations), subset sensitivities or total sensitivity / N; case kinds: 8% Gaussian inter-iteration or "
+           "inter-update filter (interval 1..3), 37% quadratic or relative-difference prior (penalisation 0.01..5, optional kappa, "
+           "only_2D) with additive or multiplicative MAP model, 20% single-subset runs (half of them without additive term), rest "
+           "plain OSEM; 12% randomised subset order; 25% with every iterate written to and read back from Interfile.  Every iterate "
+           "is observed (input of each sub-gradient call of a recording objective function + returned target).  Restart: for every "
+           "interruption point k (quick: 6 sampled per case) a FRESH reconstruction + objective function is started at k+1 from the "
+           "iterate after k (memory copy or the file the uninterrupted run saved), enforce_initial_positivity off (60%) or on.  "
+           "non-trivial = matrix with >= 30 non-zeros, non-zero counts, >= 2 updates compared with the reference formula; distinct = "
+           "distinct case descriptor"),
+     technique=("runtime monitoring: every iterate of real OSMAPOSL runs compared voxel by voxel with a float64 reference of the "
+                "documented update computed from the explicit system matrix (computed float32 bands), derived invariants "
+                "(positivity, monotone likelihood, count preservation) and restart-vs-uninterrupted bit equality, under "
+                "ASan/UBSan/asserts and at -O2"),
+     level_text=("thousands of generated small reconstructions are run with the real OSMAPOSLReconstruction; after every sub-iteration "
+                 "every voxel is compared with lambda * G_S'[y/(G_S lambda + a)] / s_S (0 where s_S = 0) evaluated in float64 from the "
+                 "dense matrix G (rows of a ProjMatrixByBinUsingRayTracing configured like the one inside the objective function), with "
+                 "the one-step-late denominator clamp(s + grad/N, s/10, 10 s) resp. s clamp(1 + grad, 0.1, 10) when a prior is present; "
+                 "the acceptance band is 8(n+2)2^-23 sum|terms| propagated through forward projection, ratio, back projection and the "
+                 "division; the subset actually used must follow the documented schedule; all iterates finite and >= 0 (also with "
+                 "filters); with one subset the float64 log-likelihood of successive iterates (and the value reported by a real "
+                 "objective function, itself compared with the float64 value) never decreases beyond the first-order rounding slack; "
+                 "without additive term sum_v s_v lambda_v equals the total counts after every full-data update; files written at "
+                 "every sub-iteration are bit-identical to the iterate in memory; a fresh reconstruction started at k+1 from the "
+                 "iterate after k reproduces every later iterate bit-for-bit (same subset schedule), for all interruption points.  "
+                 "Detection validated on planted mutations (see DESIGN.md section 9.4)"),
+     level_note=("trusted: harness/common/recon_ref.h (sparse float64 model of forward/back projection, divide_and_truncate and divide "
+                 "rules) and the system matrix rows as returned by ProjMatrixByBinUsingRayTracing (C03/C04 check those); the prior "
+                 "gradient is taken from a separate instance of the same prior class (C09 checks it).  Voxels / bins closer to a "
+                 "documented truncation switch (numerator <= max*1e-6, quotient cap 1e4, divide's small_num) than the float32 band are "
+                 "excluded and counted; log-likelihood and count-preservation monitors skip steps in which a quotient was capped.  "
+                 "Filters other than 'iterate stays non-negative, restart equal' have no closed form and are not compared with a "
+                 "formula.  Restart with randomised subset order is not compared (rand() state is process history).  With "
+                 "enforce_initial_positivity ON and a saved iterate that contains zeros, set_up lifts the zeros as documented; the "
+                 "later iterates then legitimately differ and only 'voxels above 1e-6 unchanged by set_up' and positivity are checked "
+                 "(counter restarts_positivity_on_start_image_lifted).  Not exercised: TOF, span > 1, list-mode / other objective "
+                 "functions, parametric images, minimum/maximum relative change other than the defaults, post-filter, MPI/OpenMP"),
+     assumptions=["counts are integers <= 1e5 and the start image is strictly positive, so that the only truncations of "
+                  "divide_and_truncate that can be active are y = 0 and the documented quotient cap 1e4 (modelled)",
+                  "the interrupted and the resumed run execute in the same process with the same binary, so identical float32 "
+                  "arithmetic is expected (bit-for-bit comparison)",
+                  "all lengths of the generated geometry are multiples of 1/8 mm with <= 6 significant digits, so that the Interfile "
+                  "header of a saved iterate reproduces the geometry exactly (header precision is C10's subject)"],
      )
